@@ -1404,6 +1404,10 @@ func (gqm *GroupQuotaManager) doUpdateOneGroupMinQuotaNoLock(quotaName string, n
 			return
 		}
 		parentRuntimeCalculator.updateOneGroupMinQuota(curQuotaInfo)
+		// the min of a quota that does not lend is part of its request: refresh the calculator's copy too.
+		if parentRuntimeCalculator.needUpdateOneGroupRequest(curQuotaInfo) {
+			parentRuntimeCalculator.updateOneGroupRequest(curQuotaInfo)
+		}
 
 		newSubLimitReq := curQuotaInfo.getLimitRequestNoLock()
 		deltaRequest := quotav1.Subtract(newSubLimitReq, oldSubLimitReq)
